@@ -14,7 +14,7 @@ def parseSum (s : String) : Option BlockSum :=
   match s.splitOn ":" with
   | [i, n, p, pn, l, hp, tu, v, k, b, ts] => do
     let i ← unhex i; let n ← n.toNat?; let p ← unhex p; let pn ← pn.toNat?; let l ← l.toNat?
-    let hp ← parseBool hp; let tu ← unhex tu; let v ← unhex v; let k ← k.toNat?; let b ← unhex b
+    let hp ← parseBool hp; let tu ← unhex tu; let v ← unhex v; let k ← k.toInt?; let b ← unhex b
     pure ⟨i, n, p, pn, l, hp, tu, v, k, b, ts⟩
   | _ => none
 
